@@ -299,3 +299,22 @@ package state
 //@ func Reset
 //@   props C19
 //@   ensures [C19.ctl.reset] result != nil && fresh(result) && result.Headers.Control == "reset" && result.Headers.Offset == offset
+
+// Replay: exactly one bus.Replay from the given offset, its result returned
+// (the callback is m.Apply bound to this materializer).
+//@ func eventbus.(*EventBus).Replay(bus, ctx, from, handler)
+//@   trusted
+//@   effect reentrant
+//@ event busReplayCall := call (*EventBus).Replay
+//@ func (*Materializer).Replay
+//@   props C18
+//@   requires m != nil && bus != nil && ctx != nil
+//@   ensures [C18.replay.delegates] cnt(busReplayCall) == 1 && lastarg(busReplayCall, 0) == bus && lastarg(busReplayCall, 1, Iface) == ctx && lastarg(busReplayCall, 2, String) == from &&
+//@        result == lastres(busReplayCall, Iface)
+
+//@ func NewTypedCollection
+//@   props C18 C19
+//@   ensures [C18.coll.new] result != nil && fresh(result) && result.store == store && result.entityType == lastres(entityTypeCall, String) && cnt(entityTypeCall) == 1
+//@ func NewTypedCollectionWithType
+//@   props C18
+//@   ensures [C18.coll.newtyped] result != nil && fresh(result) && result.store == store && result.entityType == entityType
